@@ -20,6 +20,7 @@ import (
 	"github.com/xuperchain/xupercore/bcs/ledger/xledger/state/utxo"
 	pb "github.com/xuperchain/xupercore/bcs/ledger/xledger/xldgpb"
 	"github.com/xuperchain/xupercore/kernel/contract"
+	"github.com/xuperchain/xupercore/kernel/engines/xuperos/miner"
 	"github.com/xuperchain/xupercore/protos"
 
 	"xv/chainlib"
@@ -37,18 +38,20 @@ type Exec struct {
 	// pool as the harness believes it: tx indices in admission order
 	pool []int
 	// oracle bookkeeping
-	maxIrrevSeen int64
-	everApplied  map[int]bool
-	prunedEver   bool
-	kvAtTip      map[int]map[string]string // block -> key -> live Get answer when it was tip (C18)
-	lastObs      string
-	failedOps    int
-	ltrack       *ledgerTrack
-	crashStart   int
-	badBlocks    map[int]bool
-	selSeq       int
-	faulting     bool
-	obsLedgerH   *int64 // ledger height to use for the frozen split when observing another node
+	maxIrrevSeen  int64
+	everApplied   map[int]bool
+	prunedEver    bool
+	kvAtTip       map[int]map[string]string // block -> key -> live Get answer when it was tip (C18)
+	lastObs       string
+	failedOps     int
+	ltrack        *ledgerTrack
+	crashStart    int
+	badBlocks     map[int]bool
+	selSeq        int
+	minerTrunc    bool
+	minerTruncErr error
+	faulting      bool
+	obsLedgerH    *int64 // ledger height to use for the frozen split when observing another node
 }
 
 func errEnum(err error) string {
@@ -1080,7 +1083,17 @@ func (e *Exec) exec1(op string, pos []string, kv map[string]string, line string)
 		prune := kv["prune"] == "1"
 		from := e.stateTip()
 		irrevBefore := w.Main.S.GetMeta().IrreversibleBlockHeight
-		err := w.Main.S.Walk(b.Blk.Blockid, prune)
+		var err error
+		if e.minerTrunc {
+			// the miner's consensus-requested rollback: state walk to the target, then ledger truncation, in the real code
+			err = miner.NewMiner(w.Main.Ctx).VerifTruncateForMiner(w.Main.Ctx, b.Blk.Blockid)
+			e.minerTruncErr = err
+			if err != nil && e.stateTip() == b.Idx {
+				err = nil // the walk part succeeded, the ledger cut failed: judged by mtruncate
+			}
+		} else {
+			err = w.Main.S.Walk(b.Blk.Blockid, prune)
+		}
 		state.VerifWaitRecover()
 		if prune {
 			e.prunedEver = true
@@ -1108,6 +1121,20 @@ func (e *Exec) exec1(op string, pos []string, kv map[string]string, line string)
 		e.checkState(line)
 		e.checkPool(line)
 		return "ok"
+	case "mtruncate":
+		// Miner.truncateForMiner (what the miner does when the consensus names a truncate target): the state machine walks
+		// back WITHOUT pruning - finality holds against the consensus too - and only then the ledger is cut
+		e.minerTrunc = true
+		lbefore := e.ledgerObs()
+		ans := e.exec1("walk", pos, map[string]string{}, line)
+		e.minerTrunc = false
+		if ans != "ok" {
+			if after := e.ledgerObs(); after != lbefore {
+				e.violate("failed-truncate-left-trace", fmt.Sprintf("the miner's rollback to %s failed in its state walk but changed the ledger", pos[0]), "")
+			}
+			return "fail-walk"
+		}
+		return e.opTruncateDone(atoi(pos[0]), lbefore, e.minerTruncErr)
 	case "walktrace":
 		// a walk whose every atomic state-DB write group is observed: the node opened on the image after each group must
 		// be the corresponding element of the model's walkTrace (ties the crash model of C06 to the code)
@@ -1535,7 +1562,6 @@ func (e *Exec) snapCheck() string {
 var _ = json.Marshal
 var _ = bytes.Equal
 var _ = ledger.ErrBlockNotExist
-
 
 // selRaceAt runs selector A until its k-th log call, lets selector B run (to its end, or until it is seen to wait for
 // A), then lets A finish. Returns whether A reached that point, and an output that both selectors were handed.
